@@ -112,6 +112,7 @@ class Prop(Check):
         "BaseTypes.C04_string_match",
         "BaseTypes.C04_string_value",
         "BaseTypes.C04_string",
+        "BaseTypes.C04_string_line",
         "BaseTypes.C04_string_trailing_backslash_false",
         "BaseTypes.C04_int_lit",
         "BaseTypes.C04_int",
@@ -119,8 +120,9 @@ class Prop(Check):
         "BaseTypes.C04_bool",
     ]
     DRIVER = "Drivers/Re.lean"
-    QUICK_CASES = 800
-    THOROUGH_CASES = 60000
+    PROCS_THOROUGH = 4
+    QUICK_CASES = 600
+    THOROUGH_CASES = 30000
     RULE = ("tokens cases: a text of 1..4 literals of one base type (strings over {a,space,\",',\\,newline} exhaustively "
             "up to a bounded length and random longer / Unicode ones in both quotings; ints and floats in every literal "
             "form; all BOOL spellings) with separators and continuations, through `Model: v*=TYPE;`; re cases: 40 texts "
@@ -270,8 +272,6 @@ class Prop(Check):
         for s in rec("", 0):
             for q in ('"', "'"):
                 for ci, cont in enumerate(conts):
-                    if tier == "quick" and len(s) == maxlen and (sum(map(ord, s)) + ord(q) + ci) % 3:
-                        continue  # quick: each longest string with one of the continuations
                     items = [{"k": "str", "q": q, "s": cps(s)}]
                     extra = []
                     if cont.strip():
@@ -519,6 +519,8 @@ class Prop(Check):
                 yield mk(items[:i] + items[i + 1:], sps, case.get("tail", ""))
         if case.get("tail"):
             yield mk(items, seps, "")
+        if seps and seps[0]:
+            yield mk(items, [""] + list(seps[1:]), case.get("tail", ""))
         for i, it in enumerate(items):
             if it["k"] == "str":
                 s = it["s"]
